@@ -35,7 +35,7 @@ PROPS["C02"] = dict(
     thorough=dict(cases=30000, floor=200000, fuzz=dict(time=360)),
     level="exploration",
     level_text=("Generated-input search over views produced by the C01 generator; the random-access iterator laws and the canonical-order model of elements() are checked "
-                "at all (or a spread sample of) positions and position pairs, every dereference is compared with the model position. Bounded exploration; cannot prove absence."),
+                "at all (or a spread sample of) positions and position pairs, every dereference is compared with the model position; iterators of a foreign range of another shape (same static type) are assigned from this range's iterators and must then step, jump and subscript exactly like them. Bounded exploration; cannot prove absence."),
     technique="algebraic iterator laws + canonical-order reference model over generated views (rapidcheck + libFuzzer)",
     rule=("case = the C01 generator (root kind x D in 1..4 x extents 0..7 + up to 8 view operations) produces the view; oracle = random-access laws on "
           "begin()/end(), const begin()/end(), cbegin()/cend() (distance, ++/-- inverse, +=/-=/+/- round trips, <,<=,>,>=,==,!= against positions, it[n] vs *(it+n), "
@@ -72,7 +72,8 @@ PROPS["C19"] = dict(
     level_text=("The C01 and C02 programs (view-operation sequences, element access through all paths, iterator and elements() laws) are generated over roots whose index "
                 "extensions start at -3..3 per dimension, with reindexed() and blocked() among the operations; index arguments are drawn as ordinals and shifted by the current "
                 "first index, and the model (which tracks the first index per dimension) states which root element every index tuple must designate -- exactly the element the "
-                "zero-based twin designates at the shifted index. Bounded exploration; cannot prove absence."),
+                "zero-based twin designates at the shifted index. The C06 program (reextent to explicit index extensions, copy, equality) and the C05 program (every assignment form "
+                "through re-based views, sources given the destination's index bases) are replayed on re-based arrays too. Bounded exploration; cannot prove absence."),
     technique="metamorphic/model-based testing: generated view programs on re-based arrays vs an index-mapping model with explicit first indices (rapidcheck + libFuzzer)",
     rule=("case = header selects the C01 program (shape + element checks), the C02 program (iterators, elements(), cursors) or the C06 program (histories of reextent to explicit index extensions with a fill value, construction, copy construction/assignment, element writes and == over two arrays of D in 1..2, compared with an index-tuple -> value model); root kind x D in 1..4 x extents 0..7 x base in -3..3 "
           "per dimension + up to 10 operations incl. reindexed(i) and blocked(a,b); strided(s) only where s divides the current first index (extension() asserts offset % stride == 0) and "
@@ -216,7 +217,7 @@ PROPS["C12"] = dict(
                 "with a value-returning function (checked again after mutating the source: laziness; composed with rotated(); converted to an array), with a reference-returning function (write "
                 "through, nothing else changes), with a pointer to member; static_array_cast<T const>; as_const; member_cast of two members (value and address of every element, after mutation, "
                 "composed with rotated()); same-size reinterpret_array_cast; reinterpret_array_cast<U>(n) with the trailing dimension over each element's own bytes (const&, & and && "
-                "overloads); blas::real / blas::imag (value and aliasing); array{view} and array<long>{view}. Every index tuple is compared with f(source element at the model position)."),
+                "overloads); blas::real / blas::imag (value and aliasing); array{view} and array<long>{view}. Every index tuple is compared with f(source element at the model position), and the same elements are reached through the view's other access paths (leading-dimension iterators forwards and backwards, front/back, it -= n, end() - n, every row, elements() in both directions)."),
     technique="model-based testing of projection views over generated source views: f(source element at the index-mapping model position) as oracle (rapidcheck + libFuzzer)",
     rule=("case = element type (one harness per type, workers split evenly) x root kind x D in 1..3 x extents 0..7 + up to 5 view operations + projection; non-trivial = source view not compact "
           "row-major with >= 2 elements; distinct = hash of decoded case text"),
@@ -251,11 +252,11 @@ PROPS["C20"] = dict(
     quick=dict(cases=1200, floor=9000),
     thorough=dict(cases=25000, floor=180000, fuzz=dict(time=240)),
     level="exploration",
-    level_text=("Positive half: the generated programs of C01, C02 and the C04/C06 state machine are built three times (assertions on, -DNDEBUG, -DBOOST_MULTI_ASSERT_DISABLE) and run on the "
+    level_text=("Positive half: the generated programs of C01, C02, the C04/C06 state machine and the C06 program on re-based arrays are built three times (assertions on, -DNDEBUG, -DBOOST_MULTI_ASSERT_DISABLE) and run on the "
                 "same seeds against the same model oracles: a library assertion on a valid program aborts the default build, a result that depends on the configuration fails the oracle in one "
                 "build (additionally every other check of this suite runs assertion-enabled). Negative half: generated views x an index out of range at a generated depth of chained [] or of "
                 "call syntax, and generated destination views x sources whose extents differ in one dimension (leading or inner, or inner extents swapped with equal element count) for view=view "
-                "(lvalue, rvalue destination, const source), view=array and elements()=elements(); each case runs in a forked child of the assertion-enabled build and must die by SIGABRT with "
+                "(lvalue / rvalue destination x lvalue / rvalue / const source), view=array and elements()=elements(), on zero-based and on re-based roots (where an index below the first valid index is not negative); each case runs in a forked child of the assertion-enabled build and must die by SIGABRT with "
                 "an assertion message from a file under include/boost/multi, before any sanitizer report."),
     technique="configuration-differential testing of generated valid programs + generated death tests in forked children (rapidcheck; libFuzzer for the positive half)",
     rule=("positive: case = program selector + the case of that program (workers are split over the four harnesses; the three positive builds receive identical seeds); negative: case = root x D in 1..3 + "
@@ -297,7 +298,7 @@ PROPS["C14"] = dict(
     level="exploration",
     level_text=("Generated inputs per routine with a reconstruction oracle: potrf (double and complex<double>): A = M M^H + n I from small integers, optionally with a planted non-positive leading "
                 "minor, n in 1..6, both fillings, row- or column-major view, padded sub-block, the unselected triangle filled with a sentinel: the returned block has the order of the first "
-                "non-positive minor - 1 (or n), the factor reproduces the selected triangle of that block within 64 eps n |A|, the other triangle and the padding are untouched. geqrf: m, n in 1..6, "
+                "non-positive minor - 1 (or n), the factor reproduces the selected triangle of that block within 64 eps n |A|, the other triangle and the padding are untouched. geqrf: m, n in 1..6 and, one case in four, very elongated (40..170 x 1..3, both orientations), "
                 "padded: Q (rebuilt from the reflectors and tau) times R reconstructs the Fortran view of the input. gesvd (argument form on padded views, functional form on an array): U, VT "
                 "orthogonal, s >= 0 descending, A = U diag(s) VT, padding untouched, const input unchanged."),
     technique="generated inputs with reconstruction-residual oracles and sentinel guards (rapidcheck)",
@@ -312,14 +313,14 @@ PROPS["C15"] = dict(
     quick=dict(cases=2500, floor=20000),
     thorough=dict(cases=50000, floor=400000, fuzz=dict(time=240)),
     level="exploration",
-    level_text=("Differential testing against a direct (separable, O(N n_d)) evaluation of the unnormalised DFT: D in 1..4, extents 1..5, all 2^D masks of transformed dimensions, both signs, input and "
+    level_text=("Differential testing against a direct (separable, O(N n_d)) evaluation of the unnormalised DFT: D in 1..4, extents from {1..6, 8, 16, 25, 30, 36, 48} (at most 1500 elements), all 2^D masks of transformed dimensions, both signs, input and "
                 "output independently realised as contiguous view, transposed storage, rotated storage, padded sub-block or strided view; out-of-place through dft / dft_forward / dft_backward and "
                 "the in-place overload. The result matches within 1e-10 N max|x|; a distinct input's whole parent storage is bit-identical afterwards; every parent cell outside the output view is "
-                "unchanged; transforming back multiplies every element by the number of transformed points."),
+                "unchanged; transforming back multiplies every element by the number of transformed points; every case then runs the other placement (in place <-> out of place) of the same geometry right away, which must be equally correct."),
     technique="differential testing against a direct DFT on generated layouts and dimension masks, whole-parent guard comparison (rapidcheck + libFuzzer)",
     rule=("case = D x extents x mask x sign x input layout x output layout (or in-place) x front end x data seed; non-trivial = >= 2 elements, >= 2 transformed points and (a proper subset of the "
           "dimensions is transformed or a layout is not contiguous); distinct = hash of decoded case text"),
-    assumptions=COMMON_ASSUME[:1] + ["FFTW 3.3.10 double precision; extents 1..5 (size 0 is outside FFTW's domain)", "in-place use is through the dedicated overload on one view; aliasing views of different layouts are not generated"],
+    assumptions=COMMON_ASSUME[:1] + ["FFTW 3.3.10 double precision; extents up to 48, at most 1500 elements (size 0 is outside FFTW's domain)", "in-place use is through the dedicated overload on one view; aliasing views of different layouts are not generated"],
 )
 
 PROPS["C17"] = dict(
